@@ -155,6 +155,55 @@ def generated_queries(tier='quick'):
             (f'dbt-{mname}-create-proj', f"CREATE TABLE int2.out1 (SELECT * FROM (SELECT * FROM mindsdb.view1 AS ta) AS t1 JOIN mindsdb.{mname} AS tb WHERE t1.t > LATEST LIMIT 4)"),
             (f'dbt-{mname}-gt', f"SELECT * FROM (SELECT * FROM int1.tbl1 AS ta) AS t1 JOIN mindsdb.{mname} AS tb WHERE t1.t > '2020-01-01' LIMIT 2"),
         ]
+    # round 7: ORDER BY items that are not plain columns together with LIMIT (the LIMIT push-down inspects every ORDER BY item), on table joins,
+    # model joins, partitioned model joins and below INSERT / CREATE TABLE
+    orders = ['t1.a + 1', 'lower(t1.a)', '1', 't1.a DESC, t2.b', 'coalesce(t1.a, 0), t1.b', '- t1.a', "'x'", 't1.a IS NULL', 'CAST(t1.a AS int)', 'a']
+    for i, ob in enumerate(orders):
+        q += [
+            (f'order-expr-{i}-join', f'SELECT * FROM int1.tbl1 AS t1 JOIN int2.tbl2 AS t2 ON t1.id = t2.id ORDER BY {ob} LIMIT 5'),
+            (f'order-expr-{i}-left', f'SELECT * FROM int1.tbl1 AS t1 LEFT JOIN int2.tbl2 AS t2 ON t1.id = t2.id WHERE t1.a = 1 ORDER BY {ob} LIMIT 5 OFFSET 1'),
+            (f'order-expr-{i}-model', f'SELECT * FROM int1.tbl1 AS t1 JOIN mindsdb.pred AS t2 ORDER BY {ob} LIMIT 5'),
+            (f'order-expr-{i}-model-part', f'SELECT * FROM int1.tbl1 AS t1 JOIN mindsdb.pred AS t2 ORDER BY {ob} LIMIT 5 USING partition_size = 10'),
+            (f'order-expr-{i}-insert', f'INSERT INTO int2.out1 (SELECT * FROM int1.tbl1 AS t1 JOIN mindsdb.pred AS t2 ORDER BY {ob} LIMIT 5)'),
+            (f'order-expr-{i}-nolimit', f'SELECT * FROM int1.tbl1 AS t1 JOIN int2.tbl2 AS t2 ON t1.id = t2.id ORDER BY {ob}'),
+        ]
+    # every predicate form on a model column / a table column as a top-level conjunct of a model join (alone, with more tables, partitioned, below CREATE TABLE)
+    preds = ['{c} BETWEEN 1 AND 2', '{c} NOT BETWEEN 1 AND 2', '{c} IN (1, 2)', '{c} NOT IN (1, 2)', '{c} IS NULL', '{c} IS NOT NULL', "{c} LIKE 'a%'", "{c} NOT LIKE 'a%'", 'NOT {c} = 1',
+             '{c} > 1', '1 < {c}', '{c} != 1', '{c} = t.a', '{c} = 1 + 1', '{c} = lower(\'A\')', '{c} = (SELECT max(c) FROM int2.tbl2)', '- {c} = 1', '{c}', '{c} = @v', '{c} = NULL', '{c} = TRUE']
+    for i, pr in enumerate(preds):
+        for who, col in (('model', 'm.x'), ('table', 't.b')):
+            c = pr.format(c=col)
+            q += [
+                (f'pred-form-{i}-{who}', f'SELECT * FROM int1.tbl1 AS t JOIN mindsdb.pred AS m WHERE t.a = 1 AND {c}'),
+                (f'pred-form-{i}-{who}-table2', f'SELECT * FROM int1.tbl1 AS t JOIN mindsdb.pred AS m JOIN int2.tbl2 AS t2 ON t2.id = t.id WHERE {c} AND t2.c = 3'),
+                (f'pred-form-{i}-{who}-part', f'SELECT * FROM int1.tbl1 AS t JOIN mindsdb.pred AS m WHERE {c} USING partition_size = 10'),
+                (f'pred-form-{i}-{who}-create', f'CREATE TABLE int2.out1 (SELECT * FROM int1.tbl1 AS t JOIN mindsdb.pred AS m WHERE {c})'),
+            ]
+    # names with more parts than the planner consumes: a schema that is spelled like another database, versions on every kind of model
+    q += [
+        ('three-part-schema-like-db', 'SELECT * FROM int1.int2.tbl AS t1 JOIN int2.tbl2 AS t2 ON t1.id = t2.id'),
+        ('three-part-schema-like-db-upper', 'SELECT * FROM INT1.int2.tbl AS t1 JOIN int2.tbl2 AS t2 ON t1.id = t2.id'),
+        ('three-part-schema-like-project', 'SELECT * FROM int1.mindsdb.tbl AS t1 JOIN int2.tbl2 AS t2 ON t1.id = t2.id'),
+        ('three-part-schema-like-db-model', 'SELECT * FROM int1.int2.tbl AS t1 JOIN mindsdb.pred AS m'),
+        ('three-part-schema-like-db-single', 'SELECT * FROM int1.int2.tbl AS t1 WHERE t1.a = 1'),
+        ('three-part-schema-like-db-sub', 'SELECT * FROM int2.tbl2 WHERE a IN (SELECT id FROM int1.int2.tbl)'),
+        ('ts-version', "SELECT * FROM int1.tbl1 AS t JOIN mindsdb.tp.7 AS m WHERE t.t > LATEST"),
+        ('ts-version-upper', "SELECT * FROM int1.tbl1 AS t JOIN MINDSDB.tp.7 AS m WHERE t.t > '2020-01-01' AND t.g = 1"),
+        ('ts-version-short', "SELECT * FROM int1.tbl1 AS t JOIN tp.7 AS m WHERE t.t > LATEST"),
+        ('ts-version-dbt', "SELECT * FROM (SELECT * FROM int1.tbl1 AS ta WHERE ta.g = 1) AS t1 JOIN mindsdb.tp.7 AS tb WHERE t1.t > LATEST"),
+        ('modelsel-version', 'SELECT * FROM mindsdb.pred.3 WHERE x = 1'),
+        ('model-version-two', 'SELECT * FROM int1.tbl1 AS t JOIN mindsdb.pred.3 AS m JOIN proj.pred2.4 AS m2'),
+    ]
+    # the same single-integration join as the source of INSERT / CREATE TABLE and as a sub-select, written with explicit qualifiers
+    for dbn in ('int1', 'INT1'):
+        body = f'SELECT {dbn}.orders.id, o2.total FROM {dbn}.orders JOIN {dbn}.items AS o2 ON {dbn}.orders.id = o2.id WHERE {dbn}.orders.total > 10'
+        q += [
+            (f'single-join-qualified-{dbn}', body),
+            (f'single-join-qualified-{dbn}-insert', f'INSERT INTO int2.out1 ({body})'),
+            (f'single-join-qualified-{dbn}-insert-same', f'INSERT INTO int1.out1 ({body})'),
+            (f'single-join-qualified-{dbn}-create', f'CREATE TABLE int2.out1 ({body})'),
+            (f'single-join-qualified-{dbn}-sub', f'SELECT * FROM int2.tbl2 AS t2 JOIN ({body}) AS s ON s.id = t2.id'),
+        ]
     return q
 
 
